@@ -28,7 +28,15 @@ Formalisation choices (the text is silent; the reading the code implements consi
 * a script that consists of a path only is an existence test (RFC 9535 §2.3.5; what `jp.NewScript`
   builds);
 * a path without wildcard selects at most one node; each path occurrence chooses independently;
-* `$` inside a script denotes whatever root the caller supplies. -/
+* `$` inside a script denotes whatever root the caller supplies;
+* TYPED Go data (`Val.ext`): a value of a sized number type or a `gen` scalar node reached through a path
+  denotes its number / boolean / string (`Val.norm`; `uint64` above MaxInt64 wraps, as `int64(x)` does);
+  every other typed value — named scalar types, pointers, arrays, typed slices and maps, structs,
+  `gen.Array`/`gen.Object` — is an opaque value: equal (`==`, `in`) exactly to the same value of the same
+  comparable type, unequal to everything else (a typed container is "simply unequal", even to itself),
+  never ordered, not a boolean, no size (`length`/`empty` are defined on strings, `[]any` and
+  `map[string]any` only), present for `exists`/`has`. Members of a list operand of `in` are compared as
+  stored (not normalised). -/
 namespace OjgVerif.Script.Spec
 open OjgVerif OjgVerif.Script
 
@@ -62,7 +70,7 @@ def Path.normal (p : Path) : Bool := p.frags.all fun f => f != .wild
 def candidates (p : Path) (elem root : Val) : List Val :=
   match sel p elem root with
   | [] => [.nothing]
-  | v :: r => if Path.normal p then [v] else v :: r
+  | v :: r => if Path.normal p then [v.norm] else (v :: r).map Val.norm
 
 /-! ## Operators on single values -/
 
@@ -71,6 +79,10 @@ def num? : Val → Option Flt
   | .int i => some (.fin i 0)
   | .flt f => some f
   | _ => none
+
+/-- two typed values are equal when they have the same type, the type is comparable and they are the same
+value of it; a typed container (uncomparable type) equals nothing, not even itself -/
+def sameExt (x y : Ext) : Bool := x.ty == y.ty && x.cmp && x.id == y.id
 
 def eqv (a b : Val) : Bool :=
   match num? a, num? b with
@@ -81,6 +93,7 @@ def eqv (a b : Val) : Bool :=
     | .bool x, .bool y => x == y
     | .str x, .str y => x == y
     | .nothing, .nothing => true
+    | .ext x, .ext y => sameExt x y
     | _, _ => false
 
 def ltv (a b : Val) : Bool :=
@@ -112,6 +125,7 @@ def same (a b : Val) : Bool :=
   | .flt x, .flt y => Flt.eq x y
   | .str x, .str y => x == y
   | .nothing, .nothing => true
+  | .ext x, .ext y => sameExt x y
   | _, _ => false
 
 inductive Arith where | add | sub | mul | div
